@@ -106,8 +106,21 @@ func pad32(s []byte, left bool) []byte {
 	return p
 }
 
+// otherWord: a different word of at most 32 bytes (one more letter, or one letter changed)
+func otherWord(w []byte) []byte {
+	c := append([]byte{}, w...)
+	if len(c) < 32 {
+		return append(c, 'x')
+	}
+	c[len(c)/2] ^= 1
+	return c
+}
+
 func (g *fgen) word() []byte {
 	n := g.r.Intn(9)
+	if g.chance(25) { // up to the full field, so that every byte offset of the payload layout matters
+		n = g.pick(31, 32, 32, 9+g.r.Intn(22))
+	}
 	b := make([]byte, n)
 	for i := range b {
 		b[i] = byte('A' + g.r.Intn(26))
@@ -146,19 +159,16 @@ func (g *fgen) newToken(degrade bool) *tokenTruth {
 
 // attestFor builds an attestation payload for t; `how` selects faithful or mismatching metadata.
 func (g *fgen) attestFor(t *tokenTruth, how string) []byte {
-	sym, name := pad32(t.symbol, true), pad32(t.name, true)
-	if g.chance(30) {
-		sym = pad32(t.symbol, false)
-	}
+	sym, name := pad32(t.symbol, g.chance(50)), pad32(t.name, g.chance(50))
 	dec, chain, tok := t.decimals, uint16(255), t.token
 	switch how {
 	case "ok":
 	case "decimals":
 		dec++
 	case "symbol":
-		sym = pad32(append(append([]byte{}, t.symbol...), 'x'), true)
+		sym = pad32(otherWord(t.symbol), true)
 	case "name":
-		name = pad32(append([]byte{'y'}, t.name...), true)
+		name = pad32(otherWord(t.name), g.chance(50))
 	case "chain":
 		chain = uint16(g.pick(0, 2, 254, 256))
 	}
@@ -378,7 +388,7 @@ func (g *fgen) newWatchRun(kind string, fetch bool) *watchRun {
 		msgC: make(chan *common.MessagePublication, 4096)}
 	r.w = &Watcher{
 		url: n.srv.URL, governanceContractAddress: c.gov, tokenBridgeContractId: bridge,
-		chainIndex: &ChainIndex{FromGroup: 0, ToGroup: 0}, msgChan: r.msgC, obsvReqC: make(chan *gossipv1.ObservationRequest),
+		chainIndex: &ChainIndex{FromGroup: n.group, ToGroup: n.group}, msgChan: r.msgC, obsvReqC: make(chan *gossipv1.ObservationRequest),
 		blockPollerEnabled: &atomic.Bool{}, pollIntervalMs: 1, client: NewClient(n.srv.URL, n.key, 10), isMainnet: c.mainnet,
 	}
 	return r
@@ -746,7 +756,7 @@ func (g *fgen) reobsCase() {
 	copy(bridge[:], c.bridge)
 	msgC := make(chan *common.MessagePublication, 256)
 	obsC := make(chan *gossipv1.ObservationRequest)
-	w := &Watcher{url: n.srv.URL, governanceContractAddress: c.gov, tokenBridgeContractId: bridge, chainIndex: &ChainIndex{},
+	w := &Watcher{url: n.srv.URL, governanceContractAddress: c.gov, tokenBridgeContractId: bridge, chainIndex: &ChainIndex{FromGroup: n.group, ToGroup: n.group},
 		msgChan: msgC, obsvReqC: obsC, blockPollerEnabled: &atomic.Bool{}, pollIntervalMs: 1, client: NewClient(n.srv.URL, n.key, 10), isMainnet: c.mainnet}
 	base := time.Now().UnixMilli()
 	id := g.id("reobs")
